@@ -121,6 +121,7 @@ func (c *c19Queue) drain() {
 
 func VerifC19() {
 	L := verifrt.Bound("ops", 4)
+	opset := verifrt.Bound("opset", 0)
 	isMin := verifrt.Choose("kind", 2) == 0
 	var q PriorityQueue
 	if isMin {
@@ -137,7 +138,14 @@ func VerifC19() {
 		if b != nil {
 			nops = 6
 		}
+		if opset == 1 {
+			nops = 2
+		}
 		op := verifrt.Choose("op", nops)
+		if opset == 1 && op > 1 {
+			// push/pop-only histories (deeper bound): skip the other operations
+			continue
+		}
 		switch {
 		case op <= 2:
 			a.step(op, &nextTag)
